@@ -143,6 +143,35 @@ class Ctx:
         self.violations.append(Violation(key, f"obligation {ob.name} fails" + (f": {rep[1]}" if rep else ""),
                                          payload, has_input=rep is not None))
 
+    def discharge(self, obs, fkey, info, replay=None, timeout_ms=None):
+        """Discharge obligations generated outside verify_function (relational / lemma-style, still from real source)."""
+        from pyvc import solve
+        timeout_ms = timeout_ms or (20000 if self.tier == "quick" else 60000)
+        fr = {"function": fkey, "sha": info.get("sha"), "lines": info.get("lines"), "file": info.get("path"),
+              "scenarios": info.get("scenarios", 0), "paths": info.get("paths", 0), "obligations": len(obs),
+              "discharged": 0, "status": "proved", "kind": "relational"}
+
+        class _Con:
+            key = fkey
+        for ob in obs:
+            solve.solve_one(ob, timeout_ms)
+            self.obligations += 1
+            self.solver_s += ob.time_s
+            if ob.status == "proved":
+                self.discharged += 1
+                fr["discharged"] += 1
+                self.by_backend[ob.solver] = self.by_backend.get(ob.solver, 0) + 1
+            elif ob.status in ("failed", "candidate"):
+                fr["status"] = "failed"
+                self._failed(_Con, ob, replay)
+            else:
+                fr["status"] = "undecided" if fr["status"] == "proved" else fr["status"]
+                self.undecided.append({"obligation": ob.name, "reason": getattr(ob, "reason", "unknown")})
+        if obs and len(self.samples) < 8:
+            ob = obs[len(obs) // 2]
+            self.samples.append({"obligation": ob.name, "kind": ob.kind, "status": ob.status, "solver": ob.solver})
+        self.functions.append(fr)
+
     def lemma(self, name, assumptions, goal, timeout_ms=10000):
         """A lemma over contracts only (no bodies): assumptions => goal."""
         from pyvc import Obligation, solve
